@@ -1501,7 +1501,12 @@ func (v *VMValue) ComputedExecute(ctx *Context, detail *BufferSpan) *VMValue {
 	}
 
 	if cd.code == nil {
-		_ = vm.Run(cd.Expr)
+		// 首次调用时才编译。Parse会把算力计数清零，这里要保留，否则递归的惰性编译(如默认面数表达式引用自身)不受算力限制
+		opCount := vm.NumOpCount
+		if vm.Parse(cd.Expr) == nil {
+			vm.NumOpCount = opCount
+			_ = vm.RunAfterParsed()
+		}
 		cd.code = vm.code
 		cd.codeIndex = vm.codeIndex
 	} else {
@@ -1588,7 +1593,12 @@ func (v *VMValue) FuncInvokeRaw(ctx *Context, params []*VMValue, useUpCtxLocal b
 	}
 
 	if cd.code == nil {
-		_ = vm.Run(cd.Expr)
+		// 首次调用时才编译。Parse会把算力计数清零，这里要保留，否则递归的惰性编译(如默认面数表达式引用自身)不受算力限制
+		opCount := vm.NumOpCount
+		if vm.Parse(cd.Expr) == nil {
+			vm.NumOpCount = opCount
+			_ = vm.RunAfterParsed()
+		}
 		cd.code = vm.code
 		cd.codeIndex = vm.codeIndex
 	} else {
